@@ -921,6 +921,7 @@ package stack
 //@   requires arg != nil && objects != nil
 //@   modifies mapof(objects); elems(objects[arg.Value].args)
 //@   ensures [visitSkipsNonPointers C15] !arg.IsPtr ==> (forall v uint64 :: dom(objects, v) == old(dom(objects, v)) && objects[v].inPrimary == old(objects[v].inPrimary) && sameslice(objects[v].args, old(objects[v].args)))
+//@   ensures [visitSkipsNonPointersElements C15] !arg.IsPtr ==> (forall v uint64, i int :: old(dom(objects, v)) && 0 <= i && i < old(len(objects[v].args)) ==> objects[v].args[i] == old(objects[v].args[i]))
 //@   ensures [visitRecordsPointer C15] arg.IsPtr ==> dom(objects, arg.Value) && len(objects[arg.Value].args) >= 1 && objects[arg.Value].args[len(objects[arg.Value].args) - 1] == arg
 //@   ensures [visitAppendsToKnownValue C15] arg.IsPtr && old(dom(objects, arg.Value)) ==> len(objects[arg.Value].args) == old(len(objects[arg.Value].args)) + 1
 //@   ensures [visitStartsListForNewValue C15] arg.IsPtr && !old(dom(objects, arg.Value)) ==> len(objects[arg.Value].args) == 1
